@@ -1,0 +1,26 @@
+//go:build verif
+
+package verifshim
+
+import (
+	"fmt"
+	"net"
+
+	"github.com/nsqio/nsq/internal/lg"
+	"github.com/nsqio/nsq/internal/protocol"
+)
+
+type tcpHandlerFunc func(net.Conn)
+
+func (f tcpHandlerFunc) Handle(c net.Conn) { f(c) }
+
+// TCPServer runs protocol.TCPServer (the accept loop shared by nsqd and nsqlookupd) on the
+// given listener with handle as the connection handler; every log line of the loop is
+// passed to logf (level name, formatted text) when logf is not nil.
+func TCPServer(listener net.Listener, handle func(net.Conn), logf func(level string, line string)) error {
+	return protocol.TCPServer(listener, tcpHandlerFunc(handle), func(lvl lg.LogLevel, f string, args ...interface{}) {
+		if logf != nil {
+			logf(lvl.String(), fmt.Sprintf(f, args...))
+		}
+	})
+}
